@@ -413,6 +413,10 @@ Section EndToEnd.
                 forall y, In k (owned (dpop_of_built R t) y) -> y = x.
   Proof. apply (ownership_partition_l R t e_valid e_scv e_ne). Qed.
 
+  Theorem built_lowest_l x k : In k (owned (dpop_of_built R t) x) <->
+    exists sc, scope_of (graph_of R) k = Some sc /\ In x sc /\ forall b, In b sc -> b = x \/ anc t b x.
+  Proof. apply (ownership_lowest_l R t e_valid e_scv). Qed.
+
   Theorem built_correct_l : dpop_correct (dpop_of_built R t).
   Proof.
     destruct built_partition_l as (Hp & Hn & _).
